@@ -53,6 +53,11 @@ func (e errInvalidGroupOption) Format(w fmt.State, c rune) {
 func parseGroupString(s string) (group, error) {
 	components := strings.Split(s, ",")
 	g := group{Name: components[0]}
+	if g.Name == "" {
+		// A group without a name would share its key with the unnamed
+		// value of the same type.
+		return g, newErrInvalidInput("value group name cannot be empty", nil)
+	}
 	for _, c := range components[1:] {
 		switch c {
 		case "flatten":
